@@ -21,6 +21,7 @@ func init() {
 		ruleA5(c, "C09.A5")
 		ruleW2(c, "C09.A6")
 		ruleSlot(c, "C09.A7")
+		ruleRefused(c, "C09.A8")
 	}
 }
 
@@ -279,5 +280,50 @@ func ruleA4(c *Ctx, id string) {
 	for _, k := range keys {
 		a := res[k]
 		R.Check(a.ok, id, k, a.pos, "rejected / unsupported request reports an error", "error status on every explored path", a.why)
+	}
+}
+
+// ruleRefused: the journal can refuse a transaction (it does not fit in the
+// log); jrnl.CommitWait then returns false and nothing was committed.  The
+// commit funnel must undo such a transaction like an abort.
+func ruleRefused(c *Ctx, id string) {
+	V, P, R := c.V, c.P, c.R
+	R.Rule(id, "a commit the journal refuses is undone like an abort: on the false edge of jrnl.CommitWait in the commit funnel the cached inodes are dropped before the locks are released, AllocTxn.PostAbort runs, and PostCommit does not", 3)
+	f := V.commitWait
+	if f == nil || V.JrnlCommitWait == nil {
+		return
+	}
+	R.Analysed[FuncName(f)] = true
+	inv := invalidates(c)
+	pa := P.NewAlways(callTo(V.PostAbort))
+	pc := P.NewAlways(callTo(V.PostCommit))
+	rel := P.NewAlways(callTo(V.releaseInodes))
+	calls := P.CallsIn(f, funcIs(V.JrnlCommitWait))
+	if len(calls) == 0 {
+		R.Fail(id, "fstxn.commitWait|journal commit", P.Pos(f.Pos()), "the funnel calls jrnl.CommitWait", "no call")
+		return
+	}
+	for _, call := range calls {
+		cv := call.(*ssa.Call)
+		okEdge := boolEdge(f, cv, true)
+		drops := MustAfterE(f, inv, nil, okEdge)(call)
+		R.Check(drops, id, "fstxn.commitWait|refused commit drops the cached inodes", P.Pos(call.Pos()), "every path on which CommitWait returned false invalidates the cached objects of the inodes the transaction holds", "must-follow except on the result == true edge", "the journal refused the transaction, the reply is an error, but the inodes modified in place stay in the cache: GETATTR shows the size of a WRITE that failed, until the next restart")
+		undo := MustAfterE(f, pa.Instr, nil, okEdge)(call)
+		R.Check(undo, id, "fstxn.commitWait|refused commit returns its allocations", P.Pos(call.Pos()), "every path on which CommitWait returned false runs AllocTxn.PostAbort", "must-follow except on the result == true edge", "blocks and inodes allocated by a transaction that was never committed stay marked in the in-memory allocators")
+		noPub, order := true, true
+		for _, b := range f.Blocks {
+			for _, in := range b.Instrs {
+				if in == call {
+					continue
+				}
+				if pc.Instr(in) && !everyPathTakes(f, b, okEdge) {
+					noPub = false
+				}
+				if rel.Instr(in) && !everyPathTakes(f, b, okEdge) && !MustBefore(f, inv)(in) {
+					order = false
+				}
+			}
+		}
+		R.Check(noPub && order, id, "fstxn.commitWait|refused commit publishes nothing", P.Pos(call.Pos()), "PostCommit (frees become reusable) runs only on the result == true side; on the other side the locks are released only after the invalidation", "edge cut", "frees of a transaction that was never committed are applied to the in-memory allocators (the blocks are still in use on disk), or the locks are released while the cache still holds the uncommitted inodes")
 	}
 }
